@@ -4,15 +4,23 @@ from driver import Unit as U, LIBS
 def spec(th, seed):
     units = [U('C05_integer.plain', 'mon/C05_integer.cpp', 'plain'),
              U('C05_integer.simd-avx2', 'mon/C05_integer.cpp', 'plain', defs=['-mavx2', '-DGLM_FORCE_INTRINSICS'], scale=0.3)]
+    # second compiler (glm has `#if GLM_COMPILER & GLM_COMPILER_CLANG/GCC` branches)
+    units.append(U('C05_integer.clang', 'mon/C05_integer.cpp', 'clang', scale=0.2))
     if th:
         units.append(U('C05_integer.simd-sse2', 'mon/C05_integer.cpp', 'plain', defs=['-msse2', '-DGLM_FORCE_INTRINSICS'], scale=0.2))
-        units.append(U('C05_integer.clang', 'mon/C05_integer.cpp', 'clang', scale=0.2))
+        units.append(U('C05_integer.Os', 'mon/C05_integer.cpp', 'plainOs', scale=0.2))
     # aliasing supplement (mon/alias.cpp): destination / out-parameter is one of the operands; oracle = the same call with a copy of that operand
     units.append(U('C05_alias', 'mon/alias.cpp', 'plain', defs=['-DALIAS_PROP=5']))
     units.append(U('C05_alias.simd-aligned', 'mon/alias.cpp', 'plain', defs=['-DALIAS_PROP=5'] + ['-DGLM_FORCE_INTRINSICS', '-DGLM_FORCE_DEFAULT_ALIGNED_GENTYPES', '-mavx2', '-mfma']))
     if th:
         units.append(U('C05_alias.clang', 'mon/alias.cpp', 'clang', defs=['-DALIAS_PROP=5']))
         units.append(U('C05_alias.simd-sse2.O0', 'mon/alias.cpp', 'plainO0', defs=['-DALIAS_PROP=5', '-DGLM_FORCE_INTRINSICS', '-DGLM_FORCE_DEFAULT_ALIGNED_GENTYPES', '-msse2'], scale=0.2))
+    # constant-argument supplement (mon/constarg.cpp): scalar arguments as compile-time constants vs the same values read from volatiles; results must be bitwise identical
+    units.append(U('C05_constarg', 'mon/constarg.cpp', 'plain', defs=['-DCONST_PROP=5']))
+    if th:
+        units.append(U('C05_constarg.clang', 'mon/constarg.cpp', 'clang', defs=['-DCONST_PROP=5']))
+        units.append(U('C05_constarg.O3', 'mon/constarg.cpp', 'plainO3', defs=['-DCONST_PROP=5']))
+        units.append(U('C05_constarg.O1', 'mon/constarg.cpp', 'plainO1', defs=['-DCONST_PROP=5']))
     return {
         'units': units,
         'rule': 'aliasing supplement (mon/alias.cpp): every compound/in-place/out-parameter form is run twice from the same state, once with the aliased operand replaced by a copy, and the final states must be bitwise identical; bitCount/findLSB/findMSB/bitfieldReverse/bitfieldExtract/bitfieldInsert for i8..u64 scalar and vec1..4: every value of 8/16-bit types crossed with every (offset,bits) with offset+bits<=width; 32/64-bit: every single bit, every run of ones and complement, boundary lattice, random (masked/shifted mixes); uaddCarry/usubBorrow/umulExtended/imulExtended scalar and vec1..4 on all pairs of the 32-bit boundary lattice plus random pairs (equal, adjacent, complementary operands forced)',
